@@ -395,8 +395,11 @@ def walk(seed, index, props, steps=12, n=None, verbose=False):
     return viol, tags, desc, 'ok'
 
 
+DEFAULT_BUDGET = {'quick': 2000, 'thorough': 40000}
+
+
 def run(props, tier, seed, budget=None):
-    n = budget or (1500 if tier == 'quick' else 40000)
+    n = budget or DEFAULT_BUDGET[tier]
     findings = []; stats = collections.Counter(); distinct = set(); samples = []
     for i in range(n):
         viol, tags, desc, _ = walk(seed, i, props)
